@@ -55,6 +55,8 @@ def build(seed):
         lost = rnd.choice(sorted(fs.files))
         del fs.files[lost]
         ops.append({"op": "rm", "path": lost})  # the packing list still has to carry every path ever recorded
+    if rnd.random() < 0.2:
+        ops.append({"op": "orphan", "hist": "", "other_name": True})  # flatten reads the source history, it never repairs it
     ops.append({"op": "flatten", "at": ""})
     ops.append({"op": "verifypl", "at": ""})
     allpats = [x for o in ops for x in o.get("i", [])]
